@@ -6,6 +6,16 @@ ALL = ["C%02d" % i for i in range(1, 21)]
 
 # id -> dict(level, text, note, technique, design, engine, thorough=True)
 CHECKS = {
+ "C06": dict(level="exploration",
+  text="Bounded-exhaustive shape enumeration of generated CRLs through the real StreamingCRLFileReader with a recording processor, compared field by field (callbacks, order, digest, signature bits, extensions) with a whole-document encoding/asn1 reference decoder; full product of the core shape dimensions, one-at-a-time crossing of the rest, and an alignment sweep that moves every element boundary across every offset of the 4 KiB buffered-reader window (and PEM line / base64 chunk windows). Right level: the property quantifies over inputs; the space of shapes within the bounds is enumerated completely, not sampled.",
+  note="Reference decoder = encoding/asn1 + encoding/pem (trusted). Shapes outside the stated alphabet (e.g. 4-length-byte documents in quick) are not covered.",
+  technique="bounded-exhaustive input-shape enumeration against a reference decoder (small-scope exploration of the parser's input space)",
+  design="DESIGN.md §4 C06", engine="shape enumerator"),
+ "C07": dict(level="exploration",
+  text="Exhaustive enumeration of hostile inputs around valid seeds: every truncation, every single-bit flip / hostile byte substitution, and a token DFS that at every TLV boundary (all nesting levels) tries every tag x length-form token (all long forms 0x81..0x8f) both replacing the header and as a lazily extended continuation, plus a PEM framing alphabet and hostile AKI/SKI/GeneralName/RDN bytes for the chain matcher; monitors: panic, allocation delta, process death (fatal error) and hang, in rlimit-ed worker processes.",
+  note="Allocation bound 1 MiB + 2048 x input length; seeds and alphabets as listed in the evidence; depth-2 continuations only over a sub-alphabet.",
+  technique="bounded-exhaustive exploration of the parser's decision tree under an adversarial byte environment (lazy token DFS + complete 1-point neighbourhoods) with totality/allocation monitors",
+  design="DESIGN.md §4 C07", engine="token DFS / neighbourhood enumerator"),
  "C13": dict(level="model_checking",
   text="Stateless model checking of the real code: every schedule of 2-5 thread scenarios (handshakes, refresh, background fetch, cleanup, config update, two instances; both backends) with at most 2 (quick) / 3 (thorough) preemptions under a cooperative scheduler; oracles: no deadlock, no unrecovered panic, no happens-before data race on instrumented repository state (vector-clock detector evaluated on every explored execution), verdict vector in the set produced by coarse-grained sequential orders. Right level because the property quantifies over interleavings.",
   note="Sequentially consistent interleavings at lock/spawn/channel/sleep points; third-party internals (goleveldb, net/http, zap) trusted; map iteration order fixed by the instrumenter; bounded scenarios and preemption bound as reported in the evidence.",
